@@ -1,7 +1,11 @@
 mod c04;
 mod c04gen;
+mod astdump;
 mod c01;
+mod c08;
+mod c03;
 mod c05;
+mod c07;
 mod c09;
 mod c06;
 mod c10;
@@ -20,6 +24,8 @@ mod c19;
 mod goscope;
 mod c13;
 mod c16;
+mod c18;
+mod c14;
 mod probe;
 mod rng;
 mod sexp;
@@ -35,7 +41,10 @@ fn main() {
     match argv[1].as_str() {
         "c04" => c04::main(&args),
         "c01" => c01::main(&args),
+        "c03" => c03::main(&args),
         "c05" => c05::main(&args),
+        "c08" => c08::main(&args),
+        "c07" => c07::main(&args),
         "c09" => c09::main(&args),
         "c06" => c06::main(&args),
         "c10" => c10::main(&args),
@@ -47,6 +56,8 @@ fn main() {
         "c19" => c19::main(&args),
         "c13" => c13::main(&args),
         "c16" => c16::main(&args),
+        "c18" => c18::main(&args),
+        "c14" => c14::main(&args),
         "probe" => probe::main(&args),
         "stages" => probe::stages(&args),
         "golden" => probe::golden(&args),
